@@ -418,6 +418,24 @@ def renorm(t: Any) -> Any:
     return tuple(renorm(x) for x in t)
 
 
+def strip_casts(t: Any, only_full_width: bool = True) -> Any:
+    """the term without its dtype casts (astype to a full-width numeric type keeps every value; with only_full_width=False every cast is removed - for questions such as
+    null-ness that no cast changes); re-normalised"""
+    FULL = {"int64", "float64", "int", "float", "np.int64", "np.float64", "numpy.int64", "numpy.float64", "builtins.int", "builtins.float", "Int64"}
+
+    def full(ty):
+        name = ty[1] if isinstance(ty, tuple) and len(ty) == 2 and ty[0] in ("const", "ext") else None
+        return isinstance(name, str) and name in FULL
+
+    def go(x):
+        if isinstance(x, tuple):
+            if len(x) == 3 and x[0] == "astype" and (not only_full_width or full(x[1])):
+                return go(x[2])
+            return tuple(go(y) for y in x)
+        return x
+    return renorm(go(t))
+
+
 def melt_pieces(t: Any):
     """law: F.melt(id_vars=I, value_vars=[v1..vn]) is the concatenation, in this order, of n copies of F's rows - copy k carries the label vk in the variable
     column, F[vk] in the value column and F's own id columns.  A term over ONE such melted frame therefore splits into n terms over F's rows:
